@@ -235,8 +235,14 @@ class Expander:
                     a['transform'] = T
                 a['clip-path'] = 'url(#%s)' % self.new_clip(x, y, w, h)
                 return [N('g', a, [g2])]
-            inner = N('g', dict(pres_of(c), transform=(T + ' ' + mat_text(new_ts)).strip()), kids)
-            return [N('g', dict(uid, **pres), [inner])]
+            # group(use transform + style) > group(translate . viewBox transform, symbol style) > copy.  Until 214a8de this
+            # expansion put the use's transform on the INNER group (as the implementation did), which hid the class
+            # use-symbol-style-in-parent-space from the oracle.
+            inner = N('g', dict(pres_of(c), transform=mat_text(new_ts)), kids)
+            a = dict(uid, **pres)
+            if T:
+                a['transform'] = T
+            return [N('g', a, [inner])]
         a = dict(uid, **pres)
         a['transform'] = (T + ' translate(%s %s)' % (fnum(x), fnum(y))).strip()
         if c.tag == 'svg':
@@ -560,10 +566,11 @@ def gen_use_doc(rng, nth):
             u2 = N('use', {'xlink:href': '#u%d' % i, 'x': fnum(dy(rng, 0, 20))})
             body.kids.append(u2)
     if nth % 4 == 0:
-        # an explicit chain use -> use -> use -> use -> target (depth 4), every level with its own offsets / style
+        # an explicit chain use -> use -> .. -> target (depth 1 .. 8), every level with its own offsets / style
         t = rng.choice(targets)
         prev = t.attrs['id']
-        for lvl in range(3):
+        # chain length 1 .. 8 (seeded/C10-16 attacks a depth guard): depth = levels + 1
+        for lvl in range(rng.choice([0, 1, 2, 3, 3, 3, 4, 4, 5, 6, 7])):
             u = N('use', {'xlink:href': '#' + prev, 'id': 'ch%d' % lvl})
             if rng.below(3) > 0:
                 u.attrs['x'] = fnum(dy(rng, -10, 25))
@@ -1387,7 +1394,10 @@ def run_k_use_symbol(ctx, binp, quick):
             a = ' x="%s" y="%s"' % (fnum(x), fnum(y)) + (' width="%s"' % fnum(w) if hw else '') + (' height="%s"' % fnum(h) if hh else '')
             if ov:
                 a += ' overflow="%s"' % ov
-            d = '<svg %s width="200" height="200"><svg%s><rect id="probe" width="10" height="10"/></svg></svg>' % (NS, a)
+            # seeded/C10-17: `overflow` is read on the viewport element itself, never on its parent
+            pov = rng.choice([None, 'visible', 'auto'])
+            d = ('<svg %s width="200" height="200"><g%s><svg%s><rect id="probe" width="10" height="10"/></svg></g></svg>'
+                 % (NS, ' overflow="%s"' % pov if pov else '', a))
             rect_e = "(svg_clip_rect %s None None %s %s %s %s %s %s)" % (ovq, 'true' if hw else 'false', 'true' if hh else 'false',
                                                                       qstr(x), qstr(y), qstr(w), qstr(h))
             cases.append((d, 'svg', rect_e, None))
@@ -1398,6 +1408,8 @@ def run_k_use_symbol(ctx, binp, quick):
         op = rng.choice([None, 0.5, 0.25])
         sop = rng.choice([None, None, 0.5])
         ucp = rng.below(4) == 0
+        umk = rng.below(5) == 0
+        ufl = rng.below(5) == 0
         ua = ' x="%s" y="%s"' % (fnum(x), fnum(y))
         if uw is not None:
             ua += ' width="%s"' % fnum(uw)
@@ -1409,17 +1421,25 @@ def run_k_use_symbol(ctx, binp, quick):
             ua += ' opacity="%s"' % fnum(op)
         if ucp:
             ua += ' clip-path="url(#cp)"'
+        if umk:
+            ua += ' mask="url(#mk)"'
+        if ufl:
+            ua += ' filter="url(#fl)"'
+        if rng.below(3) == 0:
+            ua += ' overflow="%s"' % rng.choice(['visible', 'auto'])      # on the use (the copy's parent): must not matter
         sa = (' overflow="%s"' % ov if ov else '') + (' opacity="%s"' % fnum(sop) if sop is not None else '')
-        d = ('<svg %s width="200" height="200"><clipPath id="cp"><rect width="500" height="500"/></clipPath><symbol id="t"%s>'
+        d = ('<svg %s width="200" height="200"><clipPath id="cp"><rect width="500" height="500"/></clipPath>'
+             '<mask id="mk" maskUnits="userSpaceOnUse" x="-500" y="-500" width="1000" height="1000"><rect x="-500" y="-500" width="1000" height="1000" fill="white"/></mask>'
+             '<filter id="fl" filterUnits="userSpaceOnUse" x="-500" y="-500" width="1000" height="1000"><feOffset dx="1"/></filter><symbol id="t"%s>'
              '<rect id="probe" width="10" height="10"/></symbol><use id="u" xlink:href="#t"%s/></svg>' % (NS, sa, ua))
         w, h = (uw if uw is not None else VIEW), (uh if uh is not None else VIEW)
         rect_e = "(symbol_clip_rect %s %s %s %s %s)" % (ovq, qstr(x), qstr(y), qstr(w), qstr(h))
 
-        def st(o, c):
-            return ("{| g_opacity := %s; g_blend := 0%%N; g_isolate := false; g_clip := %s; g_mask := None; g_filter := [] |}"
-                    % (qstr(o if o is not None else 1.0), c))
+        def st(o, c, m='None', f='[]'):
+            return ("{| g_opacity := %s; g_blend := 0%%N; g_isolate := false; g_clip := %s; g_mask := %s; g_filter := %s |}"
+                    % (qstr(o if o is not None else 1.0), c, m, f))
         conv_e = ("(cleaves_of (convert_use_symbol 1%%N %s (from_translate %s %s) %s %s (match %s with Some _ => Some 9%%N | None => None end) "
-                  "[TLeaf 1%%N 0%%N]))" % (coq_ts(tm) if tm else 'ts_identity', qstr(x), qstr(y), st(op, '(Some 1%N)' if ucp else 'None'),
+                  "[TLeaf 1%%N 0%%N]))" % (coq_ts(tm) if tm else 'ts_identity', qstr(x), qstr(y), st(op, '(Some 1%N)' if ucp else 'None', '(Some 2%N)' if umk else 'None', '[3%N]' if ufl else '[]'),
                                           st(sop, 'None'), rect_e))
         cases.append((d, 'symbol', rect_e, conv_e))
     outs = ctx.rvh_batch(binp, 'dump', ["-\t" + c[0] for c in cases])
@@ -1431,9 +1451,13 @@ def run_k_use_symbol(ctx, binp, quick):
         def walk(nn, acc, opa, clips):
             if nn.get('t') == 'g':
                 A = mul(acc, nn['ts'])
-                cl = clips
+                cl = list(clips)
                 if nn.get('clip'):
-                    cl = clips + [(nn['clip'], A)]
+                    cl.append((nn['clip'], A))
+                if nn.get('mask'):
+                    cl.append(('mask', A))
+                for _f in nn.get('filters', []):
+                    cl.append(('filter', A))
                 for ch in nn.get('children', []):
                     walk(ch, A, opa * nn['opacity'], cl)
             elif nn.get('t') == 'path':
@@ -1447,15 +1471,21 @@ def run_k_use_symbol(ctx, binp, quick):
         vrect = 'None'
         cl_items = []
         for cp, A in clips:
+            if cp == 'mask':
+                cl_items.append("(1%%N, 2%%N, %s)" % coq_ts(A))
+                continue
+            if cp == 'filter':
+                cl_items.append("(2%%N, 3%%N, %s)" % coq_ts(A))
+                continue
             if cp['id'] == 'cp':
-                cl_items.append("(1%%N, %s)" % coq_ts(A))
+                cl_items.append("(0%%N, 1%%N, %s)" % coq_ts(A))
                 continue
             segs = [sg for n2 in cp['root'].get('children', []) if n2.get('t') == 'path' for sg in n2['segs']]
             xs = [sg[1] for sg in segs if len(sg) > 1]
             ys = [sg[2] for sg in segs if len(sg) > 2]
             if xs:
                 vrect = "(Some {| rx := %s; ry := %s; rw := %s; rh := %s |})" % (qstr(min(xs)), qstr(min(ys)), qstr(max(xs) - min(xs)), qstr(max(ys) - min(ys)))
-            cl_items.append("(9%%N, %s)" % coq_ts(A))
+            cl_items.append("(0%%N, 9%%N, %s)" % coq_ts(A))
         ctx.note_case('use-symbol/' + c[0])
         conv = c[3] if c[3] else "[]"
         leaf = "(1%%N, %s, %s, [%s])" % (qstr(opa), coq_ts(acc), '; '.join(cl_items)) if c[3] else "(0%N, 0, ts_identity, [])"
@@ -1467,9 +1497,9 @@ def run_k_use_symbol(ctx, binp, quick):
     if not items:
         return True
     body = ("From Coq Require Import String.\nLocal Open Scope Q_scope.\n"
-            "Definition cl_close (a b : list (N * ts)) : bool :=\n"
-            "  Nat.eqb (List.length a) (List.length b) && forallb (fun p => N.eqb (fst (fst p)) (fst (snd p)) && ts_close (1 # 5000) (snd (fst p)) (snd (snd p))) (combine a b).\n"
-            "Definition ok (c : option qrect * option qrect * list (N * Q * ts * list (N * ts)) * (N * Q * ts * list (N * ts))) : bool :=\n"
+            "Definition cl_close (a b : list (N * N * ts)) : bool :=\n"
+            "  Nat.eqb (List.length a) (List.length b) && forallb (fun p => N.eqb (fst (fst (fst p))) (fst (fst (snd p))) && N.eqb (snd (fst (fst p))) (snd (fst (snd p))) && ts_close (1 # 5000) (snd (fst p)) (snd (snd p))) (combine a b).\n"
+            "Definition ok (c : option qrect * option qrect * list (N * Q * ts * list (N * N * ts)) * (N * Q * ts * list (N * N * ts))) : bool :=\n"
             "  match c with (m, i, conv, leaf) =>\n"
             "    qrect_close (1 # 1000) m i &&\n"
             "    match conv with\n"
@@ -1494,6 +1524,56 @@ def run_k_use_symbol(ctx, binp, quick):
     return True
 
 
+def run_k_inherit(ctx, binp, quick):
+    """inherit-chain: fill of a target referenced through a chain of 1..8 uses (each with or without its own fill; the target is
+    defined inside a group with another fill) vs Model.Structure.resolved / use_chain"""
+    rng = ctx.rng
+    cases = []
+    for i in range(120 if quick else 800):
+        n = 1 + rng.below(8)
+        owns = [rng.choice([None, None, 10 + rng.below(200)]) for _ in range(n)]
+        town = rng.choice([None, None, None, 5])
+        root_fill = rng.choice([None, 3])
+        defs = '<g fill="#0000ee"><rect id="c%d" width="10" height="10"%s/></g>' % (n, ' fill="#000005"' if town else '')
+        for lvl in range(n - 1, 0, -1):
+            defs += '<use id="c%d" xlink:href="#c%d"%s/>' % (lvl, lvl + 1, ' fill="#0000%02x"' % owns[lvl] if owns[lvl] else '')
+        d = ('<svg %s width="50" height="50"%s><defs>%s</defs><use xlink:href="#c1"%s/></svg>'
+             % (NS, ' fill="#000003"' if root_fill else '', defs, ' fill="#0000%02x"' % owns[0] if owns[0] else ''))
+        e = "(resolved %d%%N (use_chain [%s] (ILeaf 1%%N %s)))" % (root_fill or 0, '; '.join('Some %d%%N' % o if o else 'None' for o in owns),
+                                                                '(Some 5%N)' if town else 'None')
+        cases.append((d, e, n))
+    outs = ctx.rvh_batch(binp, 'dump', ["-\t" + c[0] for c in cases])
+    items, idx, hist = [], [], {}
+    for i, (c, o) in enumerate(zip(cases, outs)):
+        tree = parse_json(o)
+        ps = first_path(tree, lambda nn: nn.get('t') == 'path')
+        if len(ps) != 1 or not ps[0][0].get('fill'):
+            ctx.violation("inherit-chain: the target of a use chain of length %d is missing from the tree: %s" % (c[2], str(tree)[:120]),
+                          dict(op='dump', doc=c[0], model_expr=c[1]))
+            continue
+        hist[c[2]] = hist.get(c[2], 0) + 1
+        ctx.note_case('inherit-chain/' + c[0], nontrivial=c[2] > 1)
+        items.append("(%s, %d%%N)" % (c[1], ps[0][0]['fill']['paint']['rgb'][2]))
+        idx.append(i)
+    ctx.cov['inherit_chain_lengths'] = hist
+    if not items:
+        return True
+    body = ("Definition cases : list (list (N * N) * N) := [\n%s\n].\n"
+            "Eval vm_compute in (bad_indices (fun c => match fst c with [(_, v)] => N.eqb v (snd c) | _ => false end) cases).\n" % ";\n".join(items))
+    rc, out = ctx.coq_eval('k_inherit', body, ['Model.Base', 'Model.GeomPrims', 'Model.Corr', 'Gen.SvgTables', 'Gen.StructTables',
+                                               'Gen.LeafViewBox', 'Model.Structure'])
+    bad = ctx.parse_N_list(out) if rc == 0 else None
+    if bad is None:
+        ctx.log("inherit-chain: model evaluation failed:\n" + out[-1500:])
+        return False
+    ctx.cov['correspondence_cases'] = ctx.cov.get('correspondence_cases', 0) + len(items)
+    for b in bad[:3]:
+        i = idx[b]
+        ctx.violation("inherit-chain: the fill a use chain of length %d hands to its target differs from the model (innermost value set "
+                      "along the chain, else inherited by the outermost use)" % cases[i][2], dict(op='dump', doc=cases[i][0], model_expr=cases[i][1]))
+    return True
+
+
 # =================================================================================================
 def known_scenarios(rng):
     """regressions for the two former known classes (fixed by fb5447a and 72e1d38): must pass"""
@@ -1511,6 +1591,38 @@ def known_scenarios(rng):
     b = ('<svg %s width="200" height="200"><symbol id="s" viewBox="0 0 40 40"><rect width="40" height="40" fill="blue"/></symbol>'
          '<use xlink:href="#s" x="10" y="20" width="%s" height="100"/></svg>' % (NS, fnum(pw * VIEW / 100.0)))
     out.append((None, a, b, 'regression 72e1d38: use of a symbol with width="%d%%" vs the same width in user units' % pw))
+    # former class use-symbol-style-in-parent-space (fixed by 214a8de): use -> symbol with a transform and clip-path / mask /
+    # filter / opacity, with and without a viewport clip, vs group(transform, style) > viewport clip > group(translate) > content
+    defs = ('<clipPath id="cp"><rect width="20" height="20"/></clipPath>'
+            '<mask id="mk" maskUnits="userSpaceOnUse" x="0" y="0" width="25" height="25"><rect width="25" height="25" fill="white"/></mask>'
+            '<filter id="fl" filterUnits="userSpaceOnUse" x="0" y="0" width="30" height="30"><feOffset dx="2" dy="1"/></filter>')
+    a = ('<svg %s width="100" height="100">%s<symbol id="s" overflow="visible"><rect width="40" height="40"/></symbol>'
+         '<use xlink:href="#s" transform="translate(50 0)" clip-path="url(#cp)"/></svg>' % (NS, defs))
+    b = '<svg %s width="100" height="100">%s<g transform="translate(50 0)" clip-path="url(#cp)"><rect width="40" height="40"/></g></svg>' % (NS, defs)
+    out.append((None, a, b, 'regression 214a8de: witness C10-use-symbol-clip-path-transform vs its expansion'))
+    for style in ['clip-path="url(#cp)"', 'mask="url(#mk)"', 'filter="url(#fl)"', 'opacity="0.5"',
+                  'clip-path="url(#cp)" mask="url(#mk)" opacity="0.5"']:
+        for vclip in (False, True):
+            tf = rng.choice(['translate(50 0)', 'translate(%s %s)' % (fnum(dy(rng, 5, 60)), fnum(dy(rng, 5, 60))),
+                             'matrix(2 0 0 1.5 %s %s)' % (fnum(dy(rng, 5, 40)), fnum(dy(rng, 5, 40))), 'rotate(90) translate(10 -60)'])
+            x, y = dy(rng, 0, 20), dy(rng, 0, 20)
+            w, h = dy(rng, 20, 80), dy(rng, 20, 80)
+            sym = '<symbol id="s"%s><rect width="40" height="40" fill="blue"/></symbol>' % ('' if vclip else ' overflow="visible"')
+            a = ('<svg %s width="200" height="200">%s%s<use xlink:href="#s" x="%s" y="%s" width="%s" height="%s" transform="%s" %s/></svg>'
+                 % (NS, defs, sym, fnum(x), fnum(y), fnum(w), fnum(h), tf, style))
+            if vclip and 'filter' in style:
+                # candidate defect use-symbol-filter-inside-viewport-clip: the viewport clip group is OUTSIDE the use's filter group
+                continue
+            inner = '<g transform="translate(%s %s)"><rect width="40" height="40" fill="blue"/></g>' % (fnum(x), fnum(y))
+            vdef = '<clipPath id="vp"><rect x="%s" y="%s" width="%s" height="%s"/></clipPath>' % (fnum(x), fnum(y), fnum(w), fnum(h))
+            if vclip:
+                # clip-path / mask / opacity commute with the viewport clip: written in usvg's nesting order (clip outermost)
+                b = ('<svg %s width="200" height="200">%s%s<g transform="%s" clip-path="url(#vp)"><g %s>%s</g></g></svg>'
+                     % (NS, defs, vdef, tf, style, inner))
+            else:
+                b = '<svg %s width="200" height="200">%s%s<g transform="%s" %s>%s</g></svg>' % (NS, defs, vdef, tf, style, inner)
+            out.append((None, a, b, 'regression 214a8de: use -> symbol with transform and %s, %s viewport clip, vs its expansion'
+                        % (style, 'with' if vclip else 'without')))
     return out
 
 
@@ -1769,6 +1881,7 @@ def run(ctx):
         if 'Model/ShapePath.v' not in res['failed']:
             model_ok = run_k_shapes(ctx, binp, quick) and model_ok
         model_ok = run_k_use_symbol(ctx, binp, quick) and model_ok
+        model_ok = run_k_inherit(ctx, binp, quick) and model_ok
     if quick and proof_ok:
         run_e2e(ctx, binp, T, 300)
     else:
